@@ -9,6 +9,7 @@ mod rule;
 mod subrule;
 mod error;
 mod alias;
+#[cfg(asca_verif)] pub mod verif;
 
 pub use seg::*;
 pub use place::*;
@@ -186,14 +187,20 @@ fn apply_rule_groups(rules: &[Vec<Rule>], phrases: &[Phrase]) -> Result<Vec<Phra
     let mut transformed_phrases: Vec<Phrase> = Vec::with_capacity(phrases.len());
 
     for phrase in phrases {
+        #[cfg(asca_verif)] crate::verif::emit(|| crate::verif::Event::RunPhrase);
         let mut transformed_phrase = Phrase(Vec::with_capacity(phrase.len()));
         for word in phrase.iter() {
             let mut res_word = word.clone();
+            #[cfg(asca_verif)] crate::verif::emit(|| crate::verif::Event::RunWord { word: res_word.clone() });
             for rule_group in rules {
+                #[cfg(asca_verif)] crate::verif::emit(|| crate::verif::Event::RunGroup);
                 for rule in rule_group {
+                    #[cfg(asca_verif)] crate::verif::emit(|| crate::verif::Event::RunApply { before: res_word.clone() });
                     res_word = rule.apply(res_word)?;
+                    #[cfg(asca_verif)] crate::verif::emit(|| crate::verif::Event::RunApplied { after: res_word.clone() });
                 }
             }
+            #[cfg(asca_verif)] crate::verif::emit(|| crate::verif::Event::RunWordEnd { word: res_word.clone() });
             transformed_phrase.push(res_word);
         }
         transformed_phrases.push(transformed_phrase);
@@ -215,11 +222,16 @@ fn apply_rules_trace(rules: &[Vec<Rule>], phrase: &Phrase) -> Result<Vec<Change>
     let mut res_phrase = phrase.clone();
     for (i, rule_group) in rules.iter().enumerate() {
         let res_step = res_phrase.clone();
+        #[cfg(asca_verif)] crate::verif::emit(|| crate::verif::Event::TraceGroup);
         for (j, _) in phrase.iter().enumerate() {
+            #[cfg(asca_verif)] crate::verif::emit(|| crate::verif::Event::TraceWord { index: j });
             for rule in rule_group {
+                #[cfg(asca_verif)] crate::verif::emit(|| crate::verif::Event::TraceApply { before: res_phrase[j].clone() });
                 res_phrase[j] = rule.apply(res_phrase[j].clone())?;
+                #[cfg(asca_verif)] crate::verif::emit(|| crate::verif::Event::TraceApplied { after: res_phrase[j].clone() });
             }
         }
+        #[cfg(asca_verif)] crate::verif::emit(|| crate::verif::Event::TraceSnapshot { changed: res_phrase != res_step });
         if res_phrase != res_step {
             changes.push(Change { rule_index: i, after: res_phrase.clone() });
         }
